@@ -214,6 +214,52 @@ fn run_victim<R: Reg>(b: &mut Built<R>, v: &Victim) -> Result<(), Box<dyn std::a
     }))
 }
 
+/// "then or later": after the panic was caught, whatever the safe API still hands out must be a
+/// live value. Every row of a full query and every entity reachable through an identifier the
+/// harness ever received is observed; an observed value whose ledger entry says "already dropped"
+/// (or whose self-check fails) is memory the library must not touch any more. Panics of the
+/// library during these reads are tolerated (the statement does not promise a usable world).
+fn use_later<R: Reg>(b: &mut Built<R>, stats: &mut FaultStats) -> Option<String> {
+    for w in 0..2 {
+        let Some(slot) = b.interp.slots[w].as_mut() else { continue };
+        let ids: Vec<_> = slot.model.issued.clone();
+        let real = &mut slot.real;
+        let r = catch_unwind(AssertUnwindSafe(|| {
+            let mut bad: Option<String> = None;
+            let mut seen = 0u64;
+            for row in R::snapshot(real) {
+                for (c, o) in row.comps.iter().enumerate() {
+                    if let Some(o) = o {
+                        seen += 1;
+                        if !o.ok && bad.is_none() {
+                            bad = Some(format!("world {w}: a query afterwards yields, for entity {:?}, component {c}, a value that was already dropped or is garbage (payload {}, serial {:#x})", row.id, o.payload, o.serial));
+                        }
+                    }
+                }
+            }
+            for id in &ids {
+                if let Some(comps) = R::entry_snapshot(real, *id) {
+                    for (c, o) in comps.iter().enumerate() {
+                        if let Some(o) = o {
+                            seen += 1;
+                            if !o.ok && bad.is_none() {
+                                bad = Some(format!("world {w}: entry({id:?}) afterwards yields, for component {c}, a value that was already dropped or is garbage (payload {}, serial {:#x})", o.payload, o.serial));
+                            }
+                        }
+                    }
+                }
+            }
+            (bad, seen)
+        }));
+        match r {
+            Ok((Some(bad), _)) => return Some(bad),
+            Ok((None, seen)) => stats.later_values_observed += seen,
+            Err(_) => stats.later_use_panicked += 1,
+        }
+    }
+    None
+}
+
 #[derive(Clone, Debug)]
 pub struct FaultFail {
     pub oracle: &'static str,
@@ -230,6 +276,8 @@ pub struct FaultStats {
     pub per_op_kind: BTreeMap<String, u64>,
     pub unusable: bool,
     pub excluded: BTreeMap<String, u64>,
+    pub later_values_observed: u64,
+    pub later_use_panicked: u64,
 }
 
 fn callback(i: usize) -> Callback {
@@ -337,6 +385,16 @@ pub fn run_fault_case<R: Reg>(case: &FaultCase, slot: usize, only: Option<(u8, u
                 if let Some(d) = talloc::describe(&talloc::errors()) {
                     std::mem::forget(b);
                     return fail("memory-during-unwind", format!("panic in the {k}-th {} call during {}: {d}", CALLBACK_NAMES[kind], case.victim.name()));
+                }
+                // later use of the worlds through the safe API
+                if let Some(msg) = use_later::<R>(&mut b, &mut stats) {
+                    std::mem::forget(b);
+                    return fail("dropped-value-reachable-later", format!("panic in the {k}-th {} call during {}: {msg}", CALLBACK_NAMES[kind], case.victim.name()));
+                }
+                let errs = ledger::take_errors();
+                if let Some(e) = errs.first() {
+                    std::mem::forget(b);
+                    return fail("double-drop-later", format!("panic in the {k}-th {} call during {}: while the worlds were read afterwards, {e}", CALLBACK_NAMES[kind], case.victim.name()));
                 }
                 // the worlds must still be droppable
                 let r = catch_unwind(AssertUnwindSafe(|| drop(b)));
@@ -463,6 +521,8 @@ pub fn run_fault<R: Reg>(cfg: &crate::runner::Config, known: &[String]) -> Fault
                             }
                             *l.classes.entry("cases_unusable".into()).or_insert(0) += stats.unusable as u64;
                             *l.classes.entry("injections_on_archetype_with_2plus_columns_and_rows".into()).or_insert(0) += stats.fired_multi;
+                            *l.classes.entry("values_observed_through_the_safe_api_after_a_caught_panic".into()).or_insert(0) += stats.later_values_observed;
+                            *l.classes.entry("library_panics_while_reading_a_world_after_a_caught_panic".into()).or_insert(0) += stats.later_use_panicked;
                             if fail.is_none() && stats.fired_multi > 0 {
                                 let mut h2 = std::collections::hash_map::DefaultHasher::new();
                                 serde_json::to_string(&case).unwrap().hash(&mut h2);
